@@ -1044,7 +1044,11 @@ class mru_cache(object):
                         cache.clear() 
                         queue.clear()
                     else: # purge most recently used cache entry
-                        k = queue_pop()
+                        k = key # if no (valid) use is recorded, drop the new entry
+                        while queue:
+                            k = queue_pop()
+                            if k in cache: break
+                            k = key
                         if cache.archived(): cache.dump(k)
                         try: del cache[k]
                         except KeyError: pass #FIXME: possible none purged
